@@ -95,6 +95,12 @@ struct ItemReq {
     /// shape guard for `stmts: a b`: fingerprints of statements a and b-1
     #[serde(default)]
     stmts_expect: Vec<String>,
+    /// shape guard: proof-hint key -> number of statements in the list the hint lives in (body or loop body), as recorded
+    #[serde(default)]
+    proof_expect_len: BTreeMap<String, usize>,
+    /// shape guard for slices: recorded number of top-level statements
+    #[serde(default)]
+    stmts_expect_len: usize,
 }
 
 #[derive(Serialize, Default)]
@@ -135,7 +141,7 @@ fn fingerprint(_src: &Src, st: &syn::Stmt) -> String {
 
 /// ordinal of the statement a hint is anchored to: the recorded ordinal if it still carries the expected fingerprint,
 /// else the unique statement carrying it
-fn resolve_anchor(src: &Src, stmts: &[syn::Stmt], idx: usize, expect: Option<&String>, what: &str) -> Result<(usize, bool), String> {
+fn resolve_anchor(src: &Src, stmts: &[syn::Stmt], idx: usize, expect: Option<&String>, expect_len: Option<usize>, what: &str) -> Result<(usize, bool), String> {
     match expect {
         None => if idx < stmts.len() { Ok((idx, false)) } else { Err(format!("lost-anchor: statement {} for {}", idx, what)) },
         Some(e) => {
@@ -143,7 +149,14 @@ fn resolve_anchor(src: &Src, stmts: &[syn::Stmt], idx: usize, expect: Option<&St
                 return Ok((idx, false));
             }
             let c: Vec<usize> = (0..stmts.len()).filter(|&k| &fingerprint(src, &stmts[k]) == e).collect();
-            if c.len() == 1 { Ok((c[0], true)) } else { Err(format!("lost-anchor: the statement `{}...` that {} is anchored to was not found (or is not unique) in the current function body", e, what)) }
+            if c.len() == 1 {
+                return Ok((c[0], true));
+            }
+            // the anchored statement was edited in place: same number of statements, so the ordinal still denotes it
+            if c.is_empty() && idx < stmts.len() && expect_len == Some(stmts.len()) {
+                return Ok((idx, false));
+            }
+            Err(format!("lost-anchor: the statement `{}...` that {} is anchored to was not found (or is not unique) in the current function body", e, what))
         }
     }
 }
@@ -923,6 +936,12 @@ fn process_fn(
                         }
                         continue;
                     }
+                    if key == "start" {
+                        // right after the opening brace of the body: for hints that do not depend on any statement
+                        let open_b = src.off(b.brace_token.span.open().start());
+                        ctx.edits.insert(open_b + 1, format!("\n        {}\n", text), "D2p", "proof hint inserted at the start of the body".to_string());
+                        continue;
+                    }
                     if key == "end" {
                         // before the closing brace of the function body (body must not end in a tail expression)
                         let close = src.off(b.brace_token.span.close().start());
@@ -944,7 +963,7 @@ fn process_fn(
                     } else {
                         (&b.stmts, key.parse().map_err(|_| format!("bad proof key {}", key))?)
                     };
-                    let (idx, moved) = resolve_anchor(src, stmts, idx, req.proof_expect.get(key), &format!("proof hint '{}'", key))?;
+                    let (idx, moved) = resolve_anchor(src, stmts, idx, req.proof_expect.get(key), req.proof_expect_len.get(key).copied(), &format!("proof hint '{}'", key))?;
                     let st = &stmts[idx];
                     ctx.edits.insert(src.start(st), format!("{}\n        ", text), "D2p", if moved { format!("proof hint {} re-anchored to statement {} (same statement text, new position)", key, idx) } else { format!("proof hint inserted before statement {}", key) });
                 }
@@ -974,8 +993,8 @@ fn process_fn(
             }
         }
         if req.stmts_until.is_empty() && range.len() == 2 && req.stmts_expect.len() == 2 && range[1] >= 1 {
-            let (a, _) = resolve_anchor(src, &b.stmts, range[0], Some(&req.stmts_expect[0]), "the first statement of the slice")?;
-            let (z, _) = resolve_anchor(src, &b.stmts, range[1] - 1, Some(&req.stmts_expect[1]), "the last statement of the slice")?;
+            let (a, _) = resolve_anchor(src, &b.stmts, range[0], Some(&req.stmts_expect[0]), Some(req.stmts_expect_len), "the first statement of the slice")?;
+            let (z, _) = resolve_anchor(src, &b.stmts, range[1] - 1, Some(&req.stmts_expect[1]), Some(req.stmts_expect_len), "the last statement of the slice")?;
             if z - a != range[1] - 1 - range[0] && a < z + 1 {
                 return Err(format!("lost-anchor: the slice {:?} now spans a different number of statements ({}..={})", range, a, z));
             }
